@@ -373,6 +373,7 @@ def judge (j : Json) : Except String Verdict := do
     if transmissible then "transmissible" else "not-transmissible"]
     ++ (if outcome == "failed" then [s!"err:{errKind}"] else [])
     ++ (if runaway then ["runaway"] else [])
+    ++ (if outcome == "failed" && errKind == "too-large" && maxObj + 64 ≤ limit then ["refused-though-each-object-fits"] else [])
     ++ (if reshrink then ["reshrink-midway"] else [])
     ++ (if minChunk then ["min-chunk"] else [])
     ++ (if nUpd > 0 then ["updates"] else [])
